@@ -352,6 +352,10 @@ func msgOfLen(c *Ctx) []byte {
 func init() {
 	// C02: key generation of every protocol, all thresholds, id sets short/long/non-ASCII
 	register("sess-keygen", func(c *Ctx) {
+		// all protocol randomness comes from crypto/rand.Reader: a seeded stream makes the sessions (and with them every
+		// later seeded choice of the generator) reproducible
+		seedCryptoRand(c.Seed*7919 + 1134)
+		defer restoreCryptoRand()
 		installPrimeHook(c.Intn(40))
 		for i := 0; i < c.N; i++ {
 			n := 2 + c.Intn(4)
@@ -402,6 +406,10 @@ func init() {
 	})
 	// C01: signing with fresh material, random non-prefix signer subsets, message hashes of many lengths
 	register("sess-sign", func(c *Ctx) {
+		// all protocol randomness comes from crypto/rand.Reader: a seeded stream makes the sessions (and with them every
+		// later seeded choice of the generator) reproducible
+		seedCryptoRand(c.Seed*7919 + 924)
+		defer restoreCryptoRand()
 		installPrimeHook(c.Intn(40))
 		for i := 0; i < c.N; i++ {
 			n := 2 + c.Intn(4)
@@ -739,6 +747,10 @@ func kindsFor(c *Ctx, i int) (string, int, int) {
 
 func init() {
 	register("sess-refresh", func(c *Ctx) {
+		// all protocol randomness comes from crypto/rand.Reader: a seeded stream makes the sessions (and with them every
+		// later seeded choice of the generator) reproducible
+		seedCryptoRand(c.Seed*7919 + 1242)
+		defer restoreCryptoRand()
 		installPrimeHook(c.Intn(40))
 		for i := 0; i < c.N; i++ {
 			kind, n, t := kindsFor(c, i)
@@ -794,6 +806,10 @@ func init() {
 		}
 	})
 	register("sess-derive", func(c *Ctx) {
+		// all protocol randomness comes from crypto/rand.Reader: a seeded stream makes the sessions (and with them every
+		// later seeded choice of the generator) reproducible
+		seedCryptoRand(c.Seed*7919 + 1130)
+		defer restoreCryptoRand()
 		installPrimeHook(c.Intn(40))
 		for i := 0; i < c.N; i++ {
 			kind, n, t := kindsFor(c, i)
